@@ -44,4 +44,8 @@ CANARIES = [
     }
 
     #[cfg(test)]""")]),
+    dict(id='k-idle-timeout-not-applied', unit='tls_config', what='the configured idle timeout never reaches quinn', expect=['QuicConfig::transport_config::idle_timeout_is_the_configured_one'],
+         edits=[('crates/anemo/src/config.rs', "            config.max_idle_timeout(Some(max));", "            let _ = max;")]),
+    dict(id='k-keep-alive-in-seconds', unit='tls_config', what='the keep-alive interval is read as seconds', expect=['QuicConfig::transport_config::keep_alive_is_the_configured_one', 'QuicConfig::transport_config::body'],
+         edits=[('crates/anemo/src/config.rs', "self.keep_alive_interval_ms.map(Duration::from_millis)", "self.keep_alive_interval_ms.map(|ms| Duration::from_millis(ms * 1000))")]),
 ]
